@@ -1,6 +1,7 @@
 package checks
 
 import (
+	"encoding/json"
 	"fmt"
 	"os"
 	"path/filepath"
@@ -8,6 +9,7 @@ import (
 	"sort"
 	"strings"
 	"testing"
+	"time"
 
 	intoto "github.com/in-toto/in-toto-golang/in_toto"
 	"pgregory.net/rapid"
@@ -136,6 +138,15 @@ func c13Gen(t *rapid.T) c13Case {
 		}
 		add(hx.TNode{Path: name, Kind: "symlink", Target: target})
 	}
+	special := rapid.IntRange(0, 9).Draw(t, "special") == 0
+	if special {
+		// a named pipe nobody writes to (and sometimes a symlink to it): no regular file
+		d := rapid.SampledFrom(existingDirs()).Draw(t, "fifodir")
+		add(hx.TNode{Path: filepath.Join(d, "pipe"), Kind: "fifo"})
+		if rapid.Bool().Draw(t, "fifolink") {
+			add(hx.TNode{Path: "to-pipe", Kind: "symlink", Target: "@ROOT@/" + filepath.Join(d, "pipe")})
+		}
+	}
 	sort.SliceStable(nodes, func(i, j int) bool { return strings.Count(nodes[i].Path, "/") < strings.Count(nodes[j].Path, "/") })
 
 	c := c13Case{Nodes: nodes, Wrapper: rapid.SampledFrom([]string{"legacy", "dsse"}).Draw(t, "wrapper")}
@@ -172,6 +183,9 @@ func c13Gen(t *rapid.T) c13Case {
 	c.Opts.Excludes = rapid.SampledFrom([][]string{nil, nil, {"*.skip"}, {"ignored.txt"}, {"*.skip", "ignored.txt"}}).Draw(t, "excludes")
 	c.Opts.Strips = rapid.SampledFrom([][]string{nil, nil, {"sub/"}, {"sub"}, {"@ROOT@/"}, {"@ROOT@"}, {"a/", "b/"}, {"sub/deep/", "sub/"}, {"other/", "sub/"}, {"sub/", "deep/"}, {"sub/", "deep/", "er/"}, {"@ROOT@/", "sub/"}}).Draw(t, "strips")
 	c.Mode = rapid.SampledFrom([]string{"record", "record", "record", "run", "startstop", "match"}).Draw(t, "mode")
+	if special {
+		c.Mode = "record"
+	}
 	if c.Mode != "record" {
 		ops := []string{"rw:f1", "rw:sub/f1", "rw:f2.txt", "rw:data.bin", "w:new.txt:created\r\n", "w:sub/new2:x", "a:f1:appended", "rm:f1", "rm:sub", "w:f2.txt:rewritten", "mk:emptydir", "ln:f1:newlink", "w:x.skip:skipme", "rm:data.bin"}
 		c.Script = rapid.SliceOfN(rapid.SampledFrom(ops), 0, 3).Draw(t, "script")
@@ -211,6 +225,49 @@ func c13Record(o hx.RecOpts) (m map[string]intoto.HashObj, err error, pan any) {
 	}()
 	m, err = intoto.RecordArtifacts(o.Paths, o.Algs, o.Excludes, o.Strips, o.Normalize, o.FollowDir)
 	return
+}
+
+// c13Isolated records a tree that holds a named pipe in a worker process: the call must return; an
+// error is fine, a record must be the reference record (one entry per REGULAR file); a call that
+// blocks is reported with the positive diagnosis of hx.Supervise.
+func c13Isolated(base, root string, o hx.RecOpts, want map[string]map[string]string, werr error) error {
+	reqPath, respPath := filepath.Join(base, "req.json"), filepath.Join(base, "resp.json")
+	rb, _ := json.Marshal(o)
+	_ = os.WriteFile(reqPath, rb, 0o644)
+	res := hx.Supervise([]string{"record", reqPath, respPath}, root, 15*time.Second)
+	if res.TimedOut {
+		if res.Diagnosis != "" {
+			return fmt.Errorf("RecordArtifacts did not return within 15s on a tree with a named pipe (options %+v): %s", o, res.Diagnosis)
+		}
+		hx.HarnessError("C13: worker exceeded 15s without a positive diagnosis (options %+v)", o)
+		return nil
+	}
+	data, err := os.ReadFile(respPath)
+	if err != nil {
+		return fmt.Errorf("the process calling RecordArtifacts died (exit %d, signal %q): %s", res.ExitCode, res.Signal, res.Output)
+	}
+	var resp struct {
+		Err       string                    `json:"err"`
+		Panic     string                    `json:"panic"`
+		Artifacts map[string]intoto.HashObj `json:"artifacts"`
+	}
+	if err := json.Unmarshal(data, &resp); err != nil {
+		hx.HarnessError("C13: bad worker response: %v", err)
+		return nil
+	}
+	if resp.Panic != "" {
+		return fmt.Errorf("RecordArtifacts panicked: %s", resp.Panic)
+	}
+	if resp.Err != "" {
+		return nil // refusing a tree with a named pipe is no wrong record
+	}
+	if werr != nil {
+		return fmt.Errorf("RecordArtifacts error=<nil>, reference error=%v (options %+v)", werr, o)
+	}
+	if !c13Equal(resp.Artifacts, want) {
+		return fmt.Errorf("recorded artifacts differ (tree with a named pipe, options %+v):\n got  %v\n want %v", o, resp.Artifacts, want)
+	}
+	return nil
 }
 
 func c13Equal(got map[string]intoto.HashObj, want map[string]map[string]string) bool {
@@ -287,6 +344,17 @@ func c13Run(c c13Case, r *hx.Rec) error {
 		r.Label("cycle")
 	}
 
+	hasSpecial := false
+	for _, n := range c.Nodes {
+		if n.Kind == "fifo" {
+			hasSpecial = true
+		}
+	}
+	if hasSpecial {
+		// a call that may block for ever runs in a process of its own
+		r.Label("named-pipe")
+		return c13Isolated(base, root, o, want, werr)
+	}
 	switch c.Mode {
 	case "record":
 		got, gerr, pan := c13Record(o)
@@ -478,7 +546,7 @@ func TestC13(t *testing.T) {
 	hx.Assume("exclude patterns are '*.ext' and exact base names of files/symlinks; symlinks whose target alone is excluded are not generated (the statement does not settle them)")
 	hx.Check[c13Case]{
 		Property: "C13", Part: "trees",
-		Rule:  "generated directory trees (depth <=4, empty/binary/CR/LF/CRLF contents, relative and absolute file and directory symlinks, chains, self loops, dangling links, links to ancestors and outside the tree) x recorded paths ('.', absolute root, subsets, odd spellings, missing) x algorithm lists (sha256/384/512 subsets, empty, unknown) x normalisation x follow-directory-symlinks x exclude patterns x strip prefixes (incl. colliding); modes: RecordArtifacts, InTotoRun, record start/stop (emit scripts changing the tree between the snapshots), InTotoMatchProducts against perturbed links; non-trivial = tree with a symlink, a CR byte, an exclude or a strip prefix; distinct by case JSON",
+		Rule:  "generated directory trees (depth <=4, empty/binary/CR/LF/CRLF contents, relative and absolute file and directory symlinks, chains, self loops, dangling links, links to ancestors and outside the tree, now and then a named pipe nobody writes to) x recorded paths ('.', absolute root, subsets, odd spellings, missing) x algorithm lists (sha256/384/512 subsets, empty, unknown) x normalisation x follow-directory-symlinks x exclude patterns x strip prefixes (incl. colliding); modes: RecordArtifacts, InTotoRun, record start/stop (emit scripts changing the tree between the snapshots), InTotoMatchProducts against perturbed links; non-trivial = tree with a symlink, a CR byte, an exclude or a strip prefix; distinct by case JSON",
 		Cases: hx.Pick(600, 100000),
 		Gen:   c13Gen, Run: c13Run,
 	}.Execute(t)
